@@ -42,6 +42,7 @@ INDEX = {
  ]},
  "C07": {"package": ".", "harnesses": [
    {"name": "VerifH07History", "common": {"max_depth": 2000}, "quick": {"bounds": {"steps": 2, "ops": 9, "rows": 2, "colhis": 1, "caches": 1}}, "thorough": {"bounds": {"steps": 2, "ops": 9, "rows": 3, "colhis": 2, "caches": 3}}},
+   {"name": "VerifH07MutexCaches", "common": {"max_depth": 3000}, "quick": {"bounds": {"steps": 3, "ops": 3, "batch": 1, "rows": 2}}, "thorough": {"bounds": {"steps": 3, "ops": 4, "batch": 2, "rows": 2}}},
  ]},
  "C08": {"package": ".", "harnesses": [
    {"name": "VerifH08IntField", "common": {"max_depth": 3000}, "quick": {"bounds": {"values": 1, "magnitude": 7}}, "thorough": {"bounds": {"values": 2, "magnitude": 100}}},
@@ -77,6 +78,7 @@ INDEX = {
  ]},
  "C16": {"package": ".", "harnesses": [
    {"name": "VerifH16Rows", "common": {"max_depth": 3000}, "quick": {"bounds": {"steps": 2, "ops": 9, "rows": 2, "colhis": 1, "caches": 1}}, "thorough": {"bounds": {"steps": 2, "ops": 9, "rows": 4, "colhis": 2, "caches": 3}}},
+   {"name": "VerifH16GroupBy", "common": {"max_depth": 3000}, "quick": {"bounds": {"patterns": 4}}, "thorough": {"bounds": {"patterns": 6}}},
  ]},
  "C17": {"package": ".", "harnesses": [
    {"name": "VerifH17MinReducer", "quick": {"bounds": {"partials": 3}}, "thorough": {"bounds": {"partials": 4}}},
